@@ -158,3 +158,6 @@ package checkers
 //@   nosafety the engine and context are non-nil by construction
 //@   call WarnFixableWithPos requires @position-and-fix-forwarded arg1 == report.pos && arg2 == report.fix && arg3 == "%s"
 //@   call WarnWithPos requires @position-forwarded arg1 == report.pos && arg2 == "%s"
+
+// the collection every checker registers into is created by a package-level initializer and never reassigned
+//@ readonly collection @non-nil value != nil
